@@ -23,6 +23,7 @@ inductive Prog where
   | catch (a : Prog)          -- `switch` / `select`: a `break` inside ends it
   | brk
   | cont
+  | act (k : Nat)             -- something that may wait for another party: 0 a channel send, 1 a channel receive, 2 a message sent to a peer, 3 a call to a peer, 4 a `Wait`
   | unknown                   -- something the translator does not follow (a labelled jump, a deferred closure that unlocks)
   deriving Repr, DecidableEq
 
@@ -51,6 +52,7 @@ inductive Run : Prog → St → Out → Prop where
   | ret (s) : Run .ret s (.returned s)
   | brk (s) : Run .brk s (.broke s)
   | cont (s) : Run .cont s (.continued s)
+  | act (k s) : Run (.act k) s (.normal s)
   | unknown (s) : Run .unknown s .bad
   | seqGo (a b s s' o) : Run a s (.normal s') → Run b s' o → Run (.seq a b) s o
   | seqStop (a b s o) : Run a s o → (∀ s', o ≠ .normal s') → Run (.seq a b) s o
@@ -74,6 +76,7 @@ def outs : Prog → St → List Out
   | .ret, s => [.returned s]
   | .brk, s => [.broke s]
   | .cont, s => [.continued s]
+  | .act _, s => [.normal s]
   | .unknown, _ => [.bad]
   | .seq a b, s =>
     (outs a s).flatMap (fun o => match o with
@@ -107,5 +110,42 @@ def exitOk : Out → Bool
   | _ => false
 
 def safe (p : Prog) : Bool := (outs p {}).all exitOk
+
+/-- an execution together with what it did that may wait for another party *while it held a mutex*, in order -/
+inductive RunT : Prog → St → Out → List Nat → Prop where
+  | skip (s) : RunT .skip s (.normal s) []
+  | lockOk (m s) : m ∉ s.held → RunT (.lock m) s (.normal { s with held := m :: s.held }) []
+  | lockBad (m s) : m ∈ s.held → RunT (.lock m) s .bad []
+  | unlockOk (m s) : m ∈ s.held → RunT (.unlock m) s (.normal { s with held := s.held.erase m }) []
+  | unlockBad (m s) : m ∉ s.held → RunT (.unlock m) s .bad []
+  | dunlock (m s) : RunT (.dunlock m) s (.normal { s with deferred := m :: s.deferred }) []
+  | ret (s) : RunT .ret s (.returned s) []
+  | brk (s) : RunT .brk s (.broke s) []
+  | cont (s) : RunT .cont s (.continued s) []
+  | act (k s) : RunT (.act k) s (.normal s) (if s.held.isEmpty then [] else [k])
+  | unknown (s) : RunT .unknown s .bad []
+  | seqGo (a b s s' o t1 t2) : RunT a s (.normal s') t1 → RunT b s' o t2 → RunT (.seq a b) s o (t1 ++ t2)
+  | seqStop (a b s o t) : RunT a s o t → (∀ s', o ≠ .normal s') → RunT (.seq a b) s o t
+  | iteL (a b s o t) : RunT a s o t → RunT (.ite a b) s o t
+  | iteR (a b s o t) : RunT b s o t → RunT (.ite a b) s o t
+  | loopEnd (a s) : RunT (.loop a) s (.normal s) []
+  | loopNext (a s s' o t1 t2) : RunT a s (.normal s') t1 → RunT (.loop a) s' o t2 → RunT (.loop a) s o (t1 ++ t2)
+  | loopCont (a s s' o t1 t2) : RunT a s (.continued s') t1 → RunT (.loop a) s' o t2 → RunT (.loop a) s o (t1 ++ t2)
+  | loopBrk (a s s' t) : RunT a s (.broke s') t → RunT (.loop a) s (.normal s') t
+  | loopRet (a s s' t) : RunT a s (.returned s') t → RunT (.loop a) s (.returned s') t
+  | loopBad (a s t) : RunT a s .bad t → RunT (.loop a) s .bad t
+  | catchBrk (a s s' t) : RunT a s (.broke s') t → RunT (.catch a) s (.normal s') t
+  | catchOther (a s o t) : RunT a s o t → (∀ s', o ≠ .broke s') → RunT (.catch a) s o t
+
+/-- what may wait for another party under a mutex, computed -/
+def acts : Prog → St → List Nat
+  | .act k, s => if s.held.isEmpty then [] else [k]
+  | .seq a b, s => acts a s ++ (outs a s).flatMap (fun o => match o with
+      | .normal s' => acts b s'
+      | _ => [])
+  | .ite a b, s => acts a s ++ acts b s
+  | .loop a, s => acts a s
+  | .catch a, s => acts a s
+  | _, _ => []
 
 end QiVerif.Locks
